@@ -14,7 +14,9 @@ CHECKS = {
              level_note="Valid values are restricted to domains the chain survives (BlocksPerSession >= 2, SignedBlocksWindow >= 10, allocations 1..40, non-zero stake "
                         "bins, StakeDenom = upokt, gov/upgrade with the stored height and a version <= 0.12.0, ACL reassignments keep the key set); JSON null, partial "
                         "structs and type-valid but out-of-domain values are not generated. The ante handler, the amino JSON codec and the bank keeper are trusted "
-                        "only as far as the state diff shows their effects. Multisig senders are not generated."),
+                        "only as far as the state diff shows their effects. Multisig senders are not generated. A second test (TestC36ACL, same check) judges the access-control list "
+                        "abstraction itself on generated lists that name a key more than once (genesis validation and gov/acl changes accept them): GetOwner, SetOwner and repeated reads must agree on one owner per key.",
+             also=[dict(group="gov", test="TestC36ACL", quick=dict(checks=4000, timeout=300), thorough=dict(checks=60000, shards=4, timeout=900))]),
     "C37": c("gov", "TestC37", dict(checks=400, timeout=400), dict(checks=1500, shards=14, timeout=1500),
              technique="model-based property testing (map feature -> height, last writer wins) of upgrade-message sequences through real MsgUpgrade transactions on the "
                        "chain simulator and through the gov keeper at main-net-like heights, followed by a restart of the real application over the same database",
